@@ -129,6 +129,56 @@ void h_Parameter_set_int(void)
   VF_CANARY();
 }
 
+/* ---------------------------------------------------------------- set(vector<float>, dims): same contract as the int form, values compared bit for bit */
+#define OLD_FLT(i) __CPROVER_old(self->_param_data_float.data[(i) < self->_param_data_float.size ? (i) : 0])
+
+void contract_Parameter__set__vfloat_vsz(struct Parameter *self, const vf_vec_float *data, const vf_vec_size_t *dimension)
+__CPROVER_requires(vf_exc == 0 && __CPROVER_rw_ok(self, sizeof(*self)) && __CPROVER_r_ok(data, sizeof(*data)) && VF_VEC_OK(*data, float) &&
+                   VF_DIMS_OK(dimension) && data->size <= 255 * 255 && VF_VEC_OK(self->_param_data_float, float) &&
+                   self->_dimension.size <= 8 && __CPROVER_r_ok(self->_dimension.data, (self->_dimension.size ? self->_dimension.size : 1) * sizeof(size_t)))
+__CPROVER_requires(!vf_rec_called)
+__CPROVER_assigns(vf_exc, self->_data_type, self->_param_data_float.data, self->_param_data_float.size, self->_dimension.data, self->_dimension.size,
+                  vf_rec_n, vf_rec_dsize, vf_rec_dval, vf_rec_ret, vf_rec_called)
+__CPROVER_frees(self->_param_data_float.data, self->_dimension.data)
+/*@ C09 : Parameter_set_float.predicate-asked-about-count-and-shape */
+__CPROVER_ensures(vf_rec_called && vf_rec_n == data->size &&
+                  (dimension->size != 0 ==> (vf_rec_dsize == dimension->size && (vf_gd < dimension->size ==> vf_rec_dval == dimension->data[vf_gd]))) &&
+                  (dimension->size == 0 ==> (vf_rec_dsize == 1 && (vf_gd == 0 ==> vf_rec_dval == data->size))))
+/*@ C09 : Parameter_set_float.accepted-iff-predicate */
+__CPROVER_ensures((vf_exc == 0 && vf_rec_ret) || (vf_exc != 0 && !vf_rec_ret))
+/*@ C09 C10 : Parameter_set_float.refused-with-range-error */
+__CPROVER_ensures(vf_exc != 0 ==> vf_exc == VF_EXC_range_error)
+/*@ C09 : Parameter_set_float.type-is-float */ __CPROVER_ensures(vf_exc == 0 ==> self->_data_type == 4)
+/*@ C09 : Parameter_set_float.values-stored */
+__CPROVER_ensures(vf_exc == 0 ==> (self->_param_data_float.size == data->size &&
+                                    (vf_gv < data->size ==> VF_FBITS(self->_param_data_float.data[vf_gv]) == VF_FBITS(data->data[vf_gv]))))
+/*@ C09 : Parameter_set_float.explicit-dimensions-stored */
+__CPROVER_ensures((vf_exc == 0 && dimension->size != 0) ==> (self->_dimension.size == dimension->size &&
+                                    (vf_gd < dimension->size ==> self->_dimension.data[vf_gd] == dimension->data[vf_gd])))
+/*@ C09 : Parameter_set_float.default-dimension-is-count */
+__CPROVER_ensures((vf_exc == 0 && dimension->size == 0) ==> (self->_dimension.size == 1 && self->_dimension.data[0] == data->size))
+/*@ C10 C09 : Parameter_set_float.refused-leaves-type */
+__CPROVER_ensures(vf_exc != 0 ==> self->_data_type == __CPROVER_old(self->_data_type))
+/*@ C10 C09 : Parameter_set_float.refused-leaves-values */
+__CPROVER_ensures(vf_exc != 0 ==> (self->_param_data_float.size == __CPROVER_old(self->_param_data_float.size) &&
+                                    self->_param_data_float.data == __CPROVER_old(self->_param_data_float.data) &&
+                                    (vf_gv < self->_param_data_float.size ==> VF_FBITS(self->_param_data_float.data[vf_gv]) == VF_FBITS(OLD_FLT(vf_gv)))))
+/*@ C10 C09 : Parameter_set_float.refused-leaves-dimensions */
+__CPROVER_ensures(vf_exc != 0 ==> (self->_dimension.size == __CPROVER_old(self->_dimension.size) &&
+                                    self->_dimension.data == __CPROVER_old(self->_dimension.data) &&
+                                    (vf_gd < self->_dimension.size ==> self->_dimension.data[vf_gd] == OLD_DIM(vf_gd))));
+
+void h_Parameter_set_float(void)
+{
+  struct Parameter *self = mk_parameter();
+  vf_vec_float *data = (vf_vec_float *)vf_alloc(sizeof(*data));
+  VF_MK_VEC(*data, float);
+  __CPROVER_assume(data->size <= 255 * 255);
+  vf_rec_called = 0;
+  Parameter__set__vfloat_vsz(self, data, mk_dims());
+  VF_CANARY();
+}
+
 /* ---------------------------------------------------------------- set(vector<string>, dims): bounded unit (<= 4 strings;
  * the longest-string loop is unwound).  Strings gain a leading dimension equal to the longest string. */
 #define OLD_SDIM(i) __CPROVER_old(self->_dimension.data[(i) < self->_dimension.size ? (i) : 0])
